@@ -357,6 +357,7 @@ Proof.
   intros s HJ. unfold deferred_lost_segment_handling. mrun.
   destruct (p_deferred (d_p s)) eqn:Hd; cbn [negb]; [|mfin; exact HJ].
   assert (NI s) as Hn by (apply J0_NI; [jdone | intro X; rewrite X in Hd; discriminate Hd]).
+  mrun. destruct (p_disp (d_p s) =? DISP_CANCELED); [mfin; exact HJ|].
   fstep. mrun. destruct (p_file_size_eof (d_p s')) as [eos|]; [|mfin; jdone].
   mrun. destruct ((zlen (p_tracker (d_p s')) =? 0) && negb (p_md_missing (d_p s'))).
   - eapply post_bind; [apply checksum_verify_spec; ni | jx |].
